@@ -264,7 +264,9 @@ class TypedNode(Node):
         ):
             raise TypeError("If child is a node or tree it must be typed.")
 
-        if isinstance(child, self._tree.__class__):
+        # Any typed tree is added node by node - also if the target tree's class
+        # is a subclass of `child`'s class
+        if isinstance(child, TypedTree):
             if deep is None:
                 deep = True
             topnodes = child._root.children.copy()
